@@ -20,10 +20,10 @@ from engines import recplay as R
 
 PROP = 'C14'
 
-ATOMS = [None, True, False, 0, 1, 1.5, 'a', 'a*', '*', '', {'x': 1}]
+ATOMS = [None, True, False, 0, 1, 1.5, 'a', 'a*', '*', '', {'x': 1}, u'Z\u00fc "q" \\n']      # the last one: text JSON stores escaped
 OPS = ['=', '<', '<=', '>', '>=', '!=']
 ABSENT = ('absent',)
-VALUES = [ABSENT, None, True, False, 0, 1, 2, 1.5, '', 'a', 'ab', 'b', [1], ['a'], {'x': 1}, {}]
+VALUES = [ABSENT, None, True, False, 0, 1, 2, 1.5, '', 'a', 'ab', 'b', [1], ['a'], {'x': 1}, {}, u'Z\u00fc "q" \\n']
 
 
 def all_filters():
@@ -47,16 +47,16 @@ NCHUNKS = (len(FILTERS) + CHUNK - 1) // CHUNK
 META = {
     'engine': 'storage',
     'level': 'exploration',
-    'level_text': ('The finite universe (11 filter atoms, plain / in three list shapes / in each of the operator objects = < <= > >= and an unknown '
-                   'operator: %d filters) x (metadata value absent or one of 15 JSON values) is enumerated completely: every pair through the matcher '
-                   'directly and every filter as a lookup over the 16 stored recordings on each of the three real cassettes (S3 matches JSON text, the '
+    'level_text': ('The finite universe (12 filter atoms, plain / in three list shapes / in each of the operator objects = < <= > >= and an unknown '
+                   'operator: %d filters) x (metadata value absent or one of 16 JSON values) is enumerated completely: every pair through the matcher '
+                   'directly and every filter as a lookup over the 17 stored recordings on each of the three real cassettes (S3 matches JSON text, the '
                    'others decoded objects); beyond it seeded random nested filters and metadata, two-key conjunctions.  A reference matcher with '
                    'explicit don\'t-care cells is the oracle; every answer is asked twice. Also: two threads matching at the same time under the line-level scheduler, with separate and with the very same filter object.') % len(FILTERS),
     'level_note': 'Trusted: model_match (engines/storage.py) as the reading of the documentation; don\'t-care cells only require "returns a bool, does not raise".',
     'rule': ('evaluation = one (filter, value) pair through the matcher, or one filter as a lookup on one cassette (table part), or one random '
              '(filter, metadata) case; non-trivial = the filter is not a plain equality against a present value of the same type; distinct = distinct '
              'event-log digest. exhaustive=true refers to the table.'),
-    'exhaustive_part': '%d filters x 16 metadata values through the matcher and through lookups on three cassettes' % len(FILTERS),
+    'exhaustive_part': '%d filters x 17 metadata values through the matcher and through lookups on three cassettes' % len(FILTERS),
     'table_chunks': {'quick': NCHUNKS, 'thorough': NCHUNKS},
     'assumptions': ['metadata values are JSON-native', 'documentation-silent cells (see model_match) are don\'t-care'],
     'components_real': ['TapeCassette.match_against_recorded_metadata / _match_metadata_value / _operator_filter', 'iter_recording_ids of the three cassettes',
